@@ -39,15 +39,19 @@ def run(tier):
     # inputs on which only one of the two P-values of the overlapping test is below 0.01
     jp = os.path.join(tmp, "hunt.json"); op = os.path.join(tmp, "hunt.ndjson")
     with open(jp, "w") as fh:
-        json.dump({"serialHunt": 20000 if thorough else 6000, "huntSeed": rng.randrange(1 << 40), "inputs": []}, fh)
+        json.dump({"serialHunt": 20000 if thorough else 6000, "passHunt": 600 if thorough else 200, "huntSeed": rng.randrange(1 << 40), "inputs": []}, fh)
     p = vlib.run_bin(hz, ["results", jp, op], timeout=1200)
     if p.returncode != 0:
         raise vlib.InfraError("hz results (hunt) failed: " + (p.stderr or "")[-500:])
     hunt = vlib.read_ndjson(op)
-    if len(hunt) < 4:
+    if sum(1 for e in hunt if e["mode"] == "serialhunt") < 4:
         raise vlib.InfraError("vacuity: found only %d inputs with exactly one overlapping P-value below 0.01" % len(hunt))
+    marg = [e for e in hunt if e["mode"] == "passhunt"]
+    if len({e["t"] for e in marg}) < 12:
+        raise vlib.InfraError("vacuity: marginal results (1e-5 < P < 0.03) found for only %d of the 15 runners" % len({e["t"] for e in marg}))
     events += hunt
-    run.extra["overlapping_one_sided_inputs"] = len(hunt)
+    run.extra["overlapping_one_sided_inputs"] = sum(1 for e in hunt if e["mode"] == "serialhunt")
+    run.extra["marginal_runner_results"] = len(marg)
     acc, rej, gen = vlib.validate_trace("TraceRegistry", events, timeout=3000, max_rej=6)
     run.states += acc; run.transitions += gen; run.traces += acc; run.evaluations += len(events)
     for e in events:
@@ -56,6 +60,7 @@ def run(tier):
     run.sample({"res_event": [e for e in events if e["mode"] == "const1"][0]})
     byid = {i["id"]: i for i in inputs}
     byid[-1] = {"id": -1, "mode": "serialhunt", "n": 1024, "seed": 0}
+    byid[-2] = {"id": -2, "mode": "passhunt", "n": 20000, "seed": 0}
     for e in rej:
         run.violation({"kind": "result", "test": e["t"], "param": e["param"], "n": e["n"], "mode": e["mode"], "isrunner": e["isrunner"]},
                       {"cmd": "results", "input": byid[e["id"]], "event": e})
